@@ -64,7 +64,7 @@ def _history(fe):
     interest = st.fixed_dictionaries({'op': st.just('interest'), 'name': nm,
                                       'token': st.one_of(st.none(), st.binary(max_size=40).map(bytes.hex),
                                                          st.binary(min_size=1, max_size=8).map(bytes.hex)),
-                                      'env': _envspec()})
+                                      'env': _envspec(), 'params': st.sampled_from([False, False, True])})
     reply = st.fixed_dictionaries({'op': st.just('reply'), 'k': st.integers(0, 7),
                                    'size': st.sampled_from([0, 0, 0, 300, 4000, 4096, 4200, 8800])})
     adv = st.fixed_dictionaries({'op': st.just('adv'), 'ms': st.sampled_from([0, 1, 10, 49, 51, 200])})
@@ -95,7 +95,10 @@ def _run(fe, ops, full, r, flags, trace):
             if fe == 'v2':
                 def h(name, app_param, reply, ctx):
                     calls.append({'hid': my, 'name': [bytes(c) for c in name], 'reply': reply, 'ctx': ctx, 'n': 0})
-                sim.vl.call(sim.app.attach_handler, prefix, h)
+                async def accept(_n, _s, _c):
+                    from ndn.types import ValidResult
+                    return ValidResult.PASS
+                sim.vl.call(sim.app.attach_handler, prefix, h, accept)
             else:
                 def h(name, param, app_param):
                     calls.append({'hid': my, 'name': [bytes(c) for c in name]})
@@ -176,7 +179,10 @@ def _run(fe, ops, full, r, flags, trace):
                 before = len(calls)
                 if len(op['env']) >= 2:
                     flags.add('multi-header')
-                send(net.interest_wire(name, nonce=5, lifetime=4000), op['env'], token=tok)
+                # (an Interest with ApplicationParameters goes through the handler's validator before it is delivered)
+                send(net.interest_wire(name, nonce=5, lifetime=4000, app_param=b'q' if op.get('params') and fe == 'v2' else None),
+                     op['env'], token=tok)
+                sim.vl.advance(0)
                 for c in calls[before:]:
                     c['token'] = tok
                 trace.append('I')
